@@ -98,7 +98,7 @@ class Policy(object):
     """Permitted normalisations; everything else is compared exactly."""
 
     def __init__(self, defaults=True, absent_default_ok=None, type_map=None, returns=True, prose=True,
-                 ignore_type_ws=False, summary=True, ret_absent_default_ok=None, types=True):
+                 ignore_type_ws=False, summary=True, ret_absent_default_ok=None, types=True, sentence=None):
         self.defaults = defaults
         self.absent_default_ok = absent_default_ok  # f(param_dict_expected, got_default) -> bool
         self.type_map = type_map  # f(expected type or None, param) -> set of acceptable type strings (or None = any)
@@ -108,6 +108,9 @@ class Policy(object):
         self.summary = summary
         self.ret_absent_default_ok = ret_absent_default_ok
         self.types = types
+        # the 'Defaults to ...' sentence in the parsed prose: None = either way; "removed" = the parser is one that strips
+        # it (a sentence left behind is a discrepancy); "same" = present in `got` exactly when present in `expected`
+        self.sentence = sentence
 
 
 def _cmp_entry(prefix, name, exp, got, ptags, policy, out, is_return=False):
@@ -136,6 +139,10 @@ def _cmp_entry(prefix, name, exp, got, ptags, policy, out, is_return=False):
             out.append(Disc(prefix + "doc:lost", where, "expected %r, got none" % ed, ptags))
         elif ed is not None and not prose_equal(ed, gd, "default" in exp or "default" in got):
             out.append(Disc(prefix + "doc:changed", where, "expected %r got %r" % (ed, gd), ptags))
+        elif policy.sentence is not None and gd:
+            ghad, ehad = split_default_sentence(gd)[1], split_default_sentence(ed or "")[1]
+            if (policy.sentence == "removed" and ghad and not ehad) or (policy.sentence == "same" and ghad != ehad):
+                out.append(Disc(prefix + "doc:default-sentence-%s" % ("kept" if ghad else "dropped"), where, "expected %r got %r" % (ed, gd), ptags))
     # default
     if policy.defaults:
         if "default" in exp:
